@@ -260,14 +260,21 @@ def bitmap(chk, repo):
                    "and both mark it" if not ok else
                    "search loop and pwrite lie between one LOCK_EX and its "
                    "LOCK_UN")
+        percall = {}
         for k, n in enumerate(writes):
-            txt = " ".join(unparse(n.expr).split())[:50]
+            # the instance is named by what is called, not by the argument
+            # text (a magic number may get a name one day)
+            c0 = [c for c in ast.walk(n.expr) if isinstance(c, ast.Call)
+                  and (dotted(c.func) or "").startswith("os.")]
+            fn = dotted(c0[0].func) if c0 else "write"
+            percall[fn] = percall.get(fn, 0) + 1
+            txt = f"{fn} #{percall[fn]}"
             facts = [unparse(e) for e, t in path_facts(n.stmt)]
             branch = "creator" if any(
                 isinstance(p, ast.Try) and n.stmt in p.orelse
                 for p in parents(n.stmt)) else "opener" \
                 if meth == "__init__" else "remove"
-            chk.ob("R23.2", sym, f"{branch}: `{txt}` under the exclusive "
+            chk.ob("R23.2", sym, f"{branch}: {txt} under the exclusive "
                    f"lock", bool(held[n.id]), n.stmt,
                    "the write holds no lock: a participant that has opened "
                    "the freshly created file and allocated its window in "
